@@ -16,18 +16,19 @@ type Label struct {
 }
 
 type built struct {
-	Labels   []Label
-	Early    []byte // bytes of the client's tunnel stream that sat in the proxy's bufio reader at switch-over
-	Skip     []byte // bytes of the far endpoint's tunnel stream consumed by the proxy's reply reader (lost)
-	Kept     []byte // upgrade: bytes buffered by net/http's transport, delivered first
-	EarlyN   int
-	SkipN    int
-	KeptN    int
-	Forced   bool
-	ForceGap int64 // ns between the first CloseWrite and the forced Close
-	MaxRead  int
-	Inferred int
-	Problems []string
+	Labels    []Label
+	Early     []byte // bytes of the client's tunnel stream that sat in the proxy's bufio reader at switch-over
+	Skip      []byte // bytes of the far endpoint's tunnel stream consumed by the proxy's reply reader (lost)
+	Kept      []byte // upgrade: bytes buffered by net/http's transport, delivered first
+	EarlyN    int
+	SkipN     int
+	KeptN     int
+	Forced    bool
+	ForceGap  int64 // ns between the first CloseWrite and the forced Close
+	MaxRead   int
+	Inferred  int
+	PostReads int // end-of-stream / failed reads on a connection whose copier had already finished
+	Problems  []string
 }
 
 // buildTrace turns the recorded events of a gated scenario into an LTS trace.
@@ -166,8 +167,18 @@ func buildTrace(sc *scenario) built {
 				}
 				add(Label{K: "read", D: rd, N: e.N, Data: e.Data})
 			case "Reof":
+				if cwDone[rd] {
+					// not the copier: it has finished this direction. (A CONNECT request declaring a
+					// Content-Length has its "body" closed, i.e. drained, when the handler returns.)
+					b.PostReads++
+					continue
+				}
 				add(Label{K: "readeof", D: rd})
 			case "Rerr", "Werr":
+				if e.Op == "Rerr" && cwDone[rd] {
+					b.PostReads++
+					continue
+				}
 				d := rd
 				if e.Op == "Werr" {
 					d = wd
